@@ -7,11 +7,22 @@ A HISTORY is a list of events (JSON-able lists):
   ['PriorTmp', a]            ... a leftover dot file holding half a manifest
   ['Place', a, p, new]       /placement/<host>/<a> created with payload version p
                              (0 = no data); new = its ctime is later than any
-                             cache file's ctime (else earlier)
+                             cache file's ctime (else earlier): 10^7 s away
+  ['Place', a, p, new, True] ... NEAR-BY: the node's ctime is put 0.03-0.5 s
+                             after (new) / before (not new) the ctime of the
+                             instance's existing cache file, inside the SAME
+                             integer second (falls back to the far variant
+                             when the instance has no cache file)
   ['Unplace', a]  ['SetPD', a, p]  ['SetMan', a, v]  ['DelMan', a]
   ['Boot']  ['Restart']  ['Crash']  ['Notify', ready]
-  ['Sync', {'conc': {j: [event, ...]}, 'cut': [mode, k] or None}]
+  ['Sync', {'conc': {j: [event, ...]}, 'cut': [mode, k] or None, 'run': bool}]
         one call of _synchronize(zk, <children of /placement/<host>>, first);
+        run   = (first sync after Boot/Restart only) the call is NOT made by
+                the driver: the real EventMgr.run(once=True) is started on the
+                fake client and makes it from its ChildrenWatch callback, with
+                whatever check_existing its own wiring passes (only
+                time.sleep, utils.sys_exit and the ZooKeeper connection are
+                replaced; the presence node exists)
         conc  = ZooKeeper changes applied after the j-th recorded call of this
                 sync (0 = right after the directory listing)
         cut   = ('crash', k)     the process dies (fork + os._exit in the child,
@@ -37,6 +48,7 @@ import errno
 import hashlib
 import json
 import logging
+import math
 import os
 import re
 import shutil
@@ -164,6 +176,10 @@ class _Crashed(BaseException):
     pass
 
 
+class _Exited(BaseException):
+    """utils.sys_exit (os._exit in the real process) was called."""
+
+
 class _FileProxy:
     """Stands in for the temporary file object: write and close are recorded."""
 
@@ -228,6 +244,7 @@ class Replay:
             self.ppath = '/placement/%s' % self.host
             self.env_zk.ensure_path(self.ppath)
             self.env_zk.ensure_path('/scheduled')
+            self.env_zk.ensure_path('/server.presence/%s' % self.host)   # run(): presence is up
             self.store.gate = self._gate
         except BaseException:
             self.close()
@@ -288,7 +305,13 @@ class Replay:
         pl, man = {}, {}
         for raw in self.store.children(self.ppath):
             node = self.store.nodes['%s/%s' % (self.ppath, raw)]
-            pl[canon_name(raw)] = dict(data=self._decode(node.data), new=bool(node.ctime / 1000.0 > now))
+            # new = "the cache file is older than the placement node", by the
+            # ACTUAL comparison of the two time stamps (no file: against now)
+            try:
+                ref = os.stat(os.path.join(self.cache, raw)).st_ctime
+            except OSError:
+                ref = now
+            pl[canon_name(raw)] = dict(data=self._decode(node.data), new=bool(node.ctime / 1000.0 > ref))
         for raw in self.store.children('/scheduled'):
             man[canon_name(raw)] = self._decode(self.store.nodes['/scheduled/' + raw].data)
         return dict(pl=pl, man=man)
@@ -313,7 +336,7 @@ class Replay:
                 if path in self.store.nodes:
                     return False
                 zku.put(self.env_zk, path, payload(x[1]))
-                self.store.nodes[path].ctime = int((time.time() + (FAR if x[2] else -FAR)) * 1000)
+                self.store.nodes[path].ctime = self._node_ctime(x[0], bool(x[2]), len(x) > 3 and bool(x[3]))
             elif ev == 'Unplace':
                 path = '%s/%s' % (self.ppath, real_name(x[0]))
                 if path not in self.store.nodes:
@@ -340,6 +363,27 @@ class Replay:
             return True
         finally:
             self.quiet -= 1
+
+    def _node_ctime(self, a, new, near):
+        """ctime (ms) for a placement node created now.  Far: 10^7 s after /
+        before everything.  Near: inside the same integer second as the ctime
+        of the instance's cache file, later (new) or earlier than it."""
+        fpath = os.path.join(self.cache, real_name(a))
+        if near and os.path.isfile(fpath):
+            for _ in range(3):
+                f = os.stat(fpath).st_ctime
+                frac = f - math.floor(f)
+                if 0.05 <= frac <= 0.9:
+                    break
+                # too close to a second boundary: move the file's ctime (chmod to the same mode)
+                while not 0.1 <= time.time() % 1.0 <= 0.6:
+                    time.sleep(0.01)
+                os.chmod(fpath, os.stat(fpath).st_mode & 0o7777)
+            part = frac + (1.0 - frac) / 2 if new else frac / 2
+            ms = int(math.floor(f)) * 1000 + int(part * 1000)
+            if ms // 1000 == int(math.floor(f)) and (ms / 1000.0 > f) == new:
+                return ms
+        return int((time.time() + (FAR if new else -FAR)) * 1000)
 
     def env(self, e, **extra):
         if self._apply_env(e):
@@ -411,17 +455,26 @@ class Replay:
             self.apply(['Boot'])
         conc = {int(k): [list(x) for x in v] for k, v in (opts.get('conc') or {}).items()}
         cut = opts.get('cut') or None
-        self.quiet += 1
-        expected = self.zk.get_children(self.ppath)      # what the ChildrenWatch delivers
-        self.quiet -= 1
-        ce, self.first = self.first, False
-        self.emit('SyncBegin', [sorted(canon_name(r) for r in expected), ce])
-        self.rec = dict(j=0, conc=conc, cut=cut, calls=[])
+        via_run = bool(opts.get('run')) and self.first
+        self.rec = dict(j=0, conc=conc, cut=cut, calls=[], active=False)
         try:
-            if cut and cut[0] in ('crash', 'crashmid'):
-                self._sync_child(expected, ce)
+            if via_run:
+                body = self._run_body
             else:
-                self._sync_body(expected, ce)
+                self.quiet += 1
+                expected = self.zk.get_children(self.ppath)      # what the ChildrenWatch delivers
+                self.quiet -= 1
+                ce = self.first
+                self.emit('SyncBegin', [sorted(canon_name(r) for r in expected), ce])
+
+                def body():
+                    self._sync_body(lambda: self.evmgr._synchronize(          # pylint: disable=protected-access
+                        self.zk, expected, check_existing=ce))
+            self.first = False
+            if cut and cut[0] in ('crash', 'crashmid'):
+                self._sync_child(body)
+            else:
+                body()
             left = sorted(k for k in self.rec['conc'] if k >= self.rec['j'])
             pending = [e for k in left for e in self.rec['conc'][k]]
         finally:
@@ -432,9 +485,8 @@ class Replay:
                 self.apply(e)
         return calls
 
-    def _sync_body(self, expected, ce):
-        em_mod = self.m['em']
-        patches = [
+    def _patches(self):
+        return [
             mock.patch.object(tempfile, 'NamedTemporaryFile', self._w_tmpfile(tempfile.NamedTemporaryFile)),
             mock.patch.object(os, 'fchmod', self._w_plain('Chmod', os.fchmod)),
             mock.patch.object(os, 'chmod', self._w_path('Chmod', os.chmod)),
@@ -444,28 +496,92 @@ class Replay:
             mock.patch.object(os, 'remove', self._w_path('Unlink', os.remove)),
             mock.patch.object(self.m['yaml'], 'dump', self._w_dump(self.m['yaml'].dump)),
         ]
+
+    def _sync_body(self, do_sync, reraise=False):
+        """The recorded part: one _synchronize call between SyncBegin and
+        SyncEnd / SyncExc."""
+        patches = self._patches()
         for p in patches:
             p.start()
+        self.rec['active'] = True
         try:
             try:
-                self.evmgr._synchronize(self.zk, expected, check_existing=ce)   # pylint: disable=protected-access
+                do_sync()
             finally:
+                self.rec['active'] = False
                 for p in reversed(patches):
                     p.stop()
-        except _Crashed:
-            raise
-        except tlc.MachineryError:
+        except (_Crashed, _Exited, tlc.MachineryError):
             raise
         except Exception as err:      # pylint: disable=broad-except
             self.pc = 'failed'
             self.emit('SyncExc', [type(err).__name__],
                       injected=bool(getattr(err, 'verif_injected', False)),
                       detail=str(err)[:200])
+            if reraise:
+                raise
             return
         self.pc = 'synced'
         self.emit('SyncEnd', [])
 
-    def _sync_child(self, expected, ce):
+    def _run_body(self):
+        """The first sync of a process life as the service really makes it:
+        EventMgr.run(once=True) on the fake client.  zkfake fires DataWatch /
+        ChildrenWatch synchronously on registration (as kazoo does), so the
+        real _app_watch calls _synchronize with the check_existing value the
+        real wiring computes.  Replaced: the ZooKeeper connection of the global
+        context, time.sleep (the heartbeat pause) and utils.sys_exit (os._exit)."""
+        em_mod = self.m['em']
+        cls = em_mod.EventMgr
+        real_sync = cls._synchronize            # pylint: disable=protected-access
+        real_notify = cls._cache_notify         # pylint: disable=protected-access
+        ready = os.path.join(self.cache, em_mod.READY_FILE)
+        rp = self
+
+        def w_sync(this, zkclient, expected, check_existing=False):
+            rp.emit('SyncBegin', [sorted(canon_name(r) for r in expected), bool(check_existing)])
+            rp._sync_body(lambda: real_sync(this, zkclient, expected, check_existing=check_existing),
+                          reraise=True)
+
+        def w_notify(this, is_ready):
+            before = os.path.exists(ready)
+            rp.quiet += 1
+            try:
+                real_notify(this, is_ready)
+            finally:
+                rp.quiet -= 1
+            after = os.path.exists(ready)
+            if before != after:
+                rp.emit('Notify', [after])
+
+        def w_exit(code):
+            raise _Exited(code)
+
+        zkctx = em_mod.context.GLOBAL.zk
+        saved = zkctx._conn                     # pylint: disable=protected-access
+        patches = [mock.patch.object(cls, '_synchronize', w_sync),
+                   mock.patch.object(cls, '_cache_notify', w_notify),
+                   mock.patch.object(em_mod.utils, 'sys_exit', w_exit),
+                   mock.patch.object(em_mod.time, 'sleep', lambda _s: None)]
+        for p in patches:
+            p.start()
+        try:
+            zkctx.conn = self.zk
+            try:
+                self.evmgr.run(once=True)
+            except _Exited:
+                if self.pc != 'failed':
+                    raise tlc.MachineryError('EventMgr.run exited outside _synchronize')
+        finally:
+            zkctx.conn = saved
+            for p in reversed(patches):
+                p.stop()
+            # the process under test is now represented by the driver again:
+            # later syncs are made with what the ChildrenWatch would deliver
+            self.store.child_watches.clear()
+            self.store.data_watches.clear()
+
+    def _sync_child(self, body):
         """TRUE crash: the sync runs in a forked child that os._exit()s inside
         the k-th recorded call; its lines come back through a pipe."""
         rfd, wfd = os.pipe()
@@ -480,7 +596,7 @@ class Replay:
                     out.write(json.dumps(line) + '\n')
                     out.flush()
                 self.sink = sink
-                self._sync_body(expected, ce)
+                body()
                 out.flush()
             except BaseException:         # pylint: disable=broad-except
                 try:
@@ -500,18 +616,18 @@ class Replay:
                 raise tlc.MachineryError('harness failure in crash child:\n' + line['_machinery'])
         if not os.WIFEXITED(status) or os.WEXITSTATUS(status) not in (0, 77):
             raise tlc.MachineryError('crash child ended with status %r' % status)
-        last = None
+        seen = set()
         for line in got:
             if line['ev'] in ENV_EVS or line['ev'] == 'Notify':
                 self._apply_env([line['ev']] + line['args'])   # the parent's store follows
-            elif line['ev'] not in ('SyncEnd', 'SyncExc'):
+            elif line['ev'] not in ('SyncBegin', 'SyncEnd', 'SyncExc'):
                 self.rec['j'] += 1
                 self.rec['calls'].append(line['ev'])
             self.lines.append(line)
-            last = line['ev']
-        if last == 'SyncEnd':
+            seen.add(line['ev'])
+        if 'SyncEnd' in seen:
             self.pc = 'synced'
-        elif last == 'SyncExc':
+        elif 'SyncExc' in seen:
             self.pc = 'failed'
         else:
             self.pc = 'dead'
@@ -528,7 +644,7 @@ class Replay:
         """One recorded call: scheduled ZooKeeper changes first, then the cut
         (if this is the k-th call), then the real call, then one trace line."""
         rec = self.rec
-        if rec is None or self.quiet:
+        if rec is None or self.quiet or not rec['active']:
             return fn()
         rec['j'] += 1
         j = rec['j']
@@ -575,7 +691,8 @@ class Replay:
         return res
 
     def _gate(self, session, op, path):
-        if self.rec is None or self.quiet or session != self.zk.session or op != 'get':
+        if (self.rec is None or self.quiet or not self.rec['active']
+                or session != self.zk.session or op != 'get'):
             return
         if path.startswith(self.ppath + '/'):
             kind, raw = 'placement', path[len(self.ppath) + 1:]
@@ -679,8 +796,8 @@ def cut_variants(history, lines, pick=None):
                 if pick is not None and not pick(s, k, n, ev, mode):
                     continue
                 h = [list(e) for e in history[:sync_idx[s]]]
-                h.append(['Sync', dict(conc=opts.get('conc') or {}, cut=[mode, k])])
-                h += [['Restart'], ['Sync', {}]]
+                h.append(['Sync', dict(conc=opts.get('conc') or {}, cut=[mode, k], run=bool(opts.get('run')))])
+                h += [['Restart'], ['Sync', dict(run=bool(opts.get('run')))]]
                 out.append((sync_idx[s], h))
     return out
 
@@ -751,7 +868,7 @@ def gen_random(rng, insts=5):
                 placed.discard(a)
                 return ['Unplace', a]
             placed.add(a)
-            return ['Place', a, rng.choice(PVERS), rng.random() < 0.5]
+            return ['Place', a, rng.choice(PVERS), rng.random() < 0.5, rng.random() < 0.5]
         if r < 0.50 and a in placed:
             return ['SetPD', a, rng.choice(PVERS)]
         if r < 0.85:
@@ -772,19 +889,43 @@ def gen_random(rng, insts=5):
     for _ in range(rng.randrange(2, 3 * insts)):
         hist.append(env_event())
     hist.append(['Boot'])
+    start = True
     for _ in range(rng.randrange(1, 4)):
         conc = {}
         if rng.random() < 0.35:
             for _ in range(rng.randrange(1, 3)):
                 conc.setdefault(rng.randrange(0, 12), []).append(env_event())
-        hist.append(['Sync', dict(conc=conc, cut=None)])
+        hist.append(['Sync', dict(conc=conc, cut=None, run=start and rng.random() < 0.5)])
+        start = False
         r = rng.random()
         if r < 0.15:
             hist.append(['Crash'])
             hist.append(['Restart'])
+            start = True
         elif r < 0.3:
             hist.append(['Notify', rng.random() < 0.7])
         for _ in range(rng.randrange(0, 4)):
             hist.append(env_event())
-    hist.append(['Sync', {}])
+    hist.append(['Sync', dict(run=start and rng.random() < 0.5)])
+    return hist
+
+
+def vary(hist, rng):
+    """Choices the model leaves to the environment / the wiring, added to a
+    TLC-generated history: half of the placement nodes get a NEAR-BY ctime, half
+    of the first syncs of a process life go through the real EventMgr.run()."""
+    start = False
+    for e in hist:
+        if e[0] == 'Place' and len(e) == 4 and rng.random() < 0.5:
+            e.append(True)
+        elif e[0] in ('Boot', 'Restart'):
+            start = True
+        elif e[0] == 'Sync':
+            if start and rng.random() < 0.5:
+                e[1]['run'] = True
+            start = bool(e[1].get('cut'))      # a cut sync is followed by a restart
+            for evs in (e[1].get('conc') or {}).values():
+                for x in evs:
+                    if x[0] == 'Place' and len(x) == 4 and rng.random() < 0.5:
+                        x.append(True)
     return hist
